@@ -304,6 +304,23 @@ EXTRA2 = {
 for _k, _v in EXTRA2.items():
     CLAIMED[_k]["text"] = CLAIMED[_k]["text"] + _v
 
+# ---- additions after round 5 (see DESIGN 10.5)
+EXTRA3 = {
+ "C01": " The codec version follows the file header also when a legacy library is opened for writing without overwrite.",
+ "C02": " put is checked on handles still in their creating mode (w/x); a handle closed and opened again (created with r/a/w/x) loses nothing: a creating handle reopens for append.",
+ "C04": " C03's crash-image units (map_blocks / open[recover]) are part of this check: a session that begins after an interrupted writer lists only the complete records.",
+ "C07": " The bond list is written from the molecule's own atom order also when some atoms were handed to another non-copying container; a molecule without atoms round-trips.",
+ "C08": " Every one of the 118 elements is written with a symbol that reads back as the same element as a regular atom; single-frame ensemble files round-trip.",
+ "C10": " Damage also includes a cut inside a record at every token boundary; and at the parser level (read_xyz / read_mol2) every block handed out has exactly the atom (and bond) records its count line declares.",
+ "C12": " The fragments' coordinate arrays hold the same numbers after the call (also the attachment-point rows, read through views).",
+ "C14": " An append/extend of a geometry with another atom count is refused and leaves the ensemble exactly as it was; rotate with a 3x3 matrix, a stack of matrices or a 3x4 matrix leaves the ensemble rectangular with its conformer and atom count.",
+ "C16": " Called without atoms, only hint-free atoms of groups 13-16 receive hydrogens (centre of any group 1-18); the bonded valence counts the orders of the centre's bonds whatever type of atom is at the other end.",
+ "C17": " prepare/process hand the caller's arguments to the user's functions as f(job, item, *args, **kwargs), item by item in order, for single and vectorised jobs (through the real Job.vectorize); run_local executes the job whatever earlier output record lies in the output directory.",
+ "C18": " (run_local, shared with C17: an earlier output record of the same input in the output directory does not replace execution.)",
+}
+for _k, _v in EXTRA3.items():
+    CLAIMED[_k]["text"] = CLAIMED[_k]["text"] + _v
+
 NOT_APPLICABLE = {
 }
 
